@@ -98,6 +98,13 @@ Theorem C13_filesink_retry_exactly_refuted : exists t F cs,
 Proof. exact filesink_retry_exactly_refuted. Qed.
 Print Assumptions C13_filesink_retry_exactly_refuted.
 
+(* what does hold without any side condition: on success the destination received the whole value, preceded at most by a
+   prefix of it (the part a failed first Write had accepted before the retry) — never a tail alone, never anything else *)
+Theorem C13_filesink_success_prefix_then_value : forall k fmt t F cs, filesink_process k fmt t F = (SOk, cs) -> k <> PNull ->
+  exists val n, lookup (eff_format fmt) t = Some val /\ received cs = firstn n val ++ val.
+Proof. exact filesink_success_prefix_then_value. Qed.
+Print Assumptions C13_filesink_success_prefix_then_value.
+
 Theorem C13_filesink_only_the_value : forall k fmt t F c,
   In c (snd (filesink_process k fmt t F)) -> lookup (eff_format fmt) t = Some (fst c).
 Proof. exact filesink_only_the_value. Qed.
